@@ -91,3 +91,12 @@ func describeBlocks(h sim.History) []string {
 	}
 	return out
 }
+
+// committedOnly drops the in-memory items of a state dump (parameters in force, validator set last reported): what
+// remains is what the block committed to the seven ledgers and the EVM.
+func committedOnly(s *sim.State) *sim.State {
+	n := *s
+	n.Active = ""
+	n.LastVals = nil
+	return &n
+}
